@@ -35,6 +35,65 @@ func (m *RWMutex) Unlock()  { vrt.Unlock(vrt.LookupSync(unsafe.Pointer(m), "rwmu
 func (m *RWMutex) RLock()   { vrt.RLock(vrt.LookupSync(unsafe.Pointer(m), "rwmutex")) }
 func (m *RWMutex) RUnlock() { vrt.RUnlock(vrt.LookupSync(unsafe.Pointer(m), "rwmutex")) }
 
+func (m *Mutex) TryLock() bool    { return vrt.TryLock(vrt.LookupSync(unsafe.Pointer(m), "mutex")) }
+func (m *RWMutex) TryLock() bool  { return vrt.TryLock(vrt.LookupSync(unsafe.Pointer(m), "rwmutex")) }
+func (m *RWMutex) TryRLock() bool { return vrt.TryRLock(vrt.LookupSync(unsafe.Pointer(m), "rwmutex")) }
+
+type rlocker struct{ m *RWMutex }
+
+func (r rlocker) Lock()   { r.m.RLock() }
+func (r rlocker) Unlock() { r.m.RUnlock() }
+
+func (m *RWMutex) RLocker() Locker { return rlocker{m} }
+
+// Cond replaces sync.Cond: waiters queue up on one-slot controlled channels, so a Signal that comes between a
+// waiter's Unlock and its going to sleep is not lost, and every wake-up is a scheduling point.
+type Cond struct {
+	L Locker
+	_ byte
+}
+
+type condData struct{ waiters []chan struct{} }
+
+func NewCond(l Locker) *Cond { return &Cond{L: l} }
+
+func (c *Cond) data() *condData {
+	s := vrt.LookupSync(unsafe.Pointer(c), "cond")
+	if s.Aux == nil {
+		s.Aux = &condData{}
+	}
+	return s.Aux.(*condData)
+}
+
+func (c *Cond) Wait() {
+	d := c.data()
+	ch := vrt.MakeChan[struct{}](1)
+	d.waiters = append(d.waiters, ch)
+	c.L.Unlock()
+	vrt.Recv(ch)
+	c.L.Lock()
+}
+
+func (c *Cond) Signal() {
+	d := c.data()
+	vrt.Yield("cond.Signal")
+	if len(d.waiters) > 0 {
+		ch := d.waiters[0]
+		d.waiters = d.waiters[1:]
+		vrt.Send(ch, struct{}{})
+	}
+}
+
+func (c *Cond) Broadcast() {
+	d := c.data()
+	vrt.Yield("cond.Broadcast")
+	ws := d.waiters
+	d.waiters = nil
+	for _, ch := range ws {
+		vrt.Send(ch, struct{}{})
+	}
+}
+
 type WaitGroup struct{ _ byte }
 
 func (w *WaitGroup) Add(n int) { vrt.WGAdd(vrt.LookupSync(unsafe.Pointer(w), "wg"), n) }
